@@ -403,6 +403,7 @@ void run_intruder() {
   bool was_armed = g.armed;
   g.armed = false;
   g.intruder_ran = true;
+  mark_os_timing();
   string text(3000 + 17 * (g.read_returns % 7), 'B');
   text += "<end of the second caller's text>";
   std::thread t([&]() {
@@ -857,7 +858,7 @@ string act_w(int fd, uint64_t n) { return string("W") + std::to_string(fd) + ":"
 Script gen_script(bool for_communicate, size_t pipe_cap) {
   Script s;
   std::vector<string> a;
-  unsigned fam = choose(10, "family");
+  unsigned fam = choose(11, "family");
   auto sleep_act = [&](const char* site) {
     uint64_t us = pick({1000, 1, 50000, 900000, 1500000, 3000000, 30000000, 3600000000ULL}, site);
     s.total_sleep += us;
@@ -935,6 +936,25 @@ Script gen_script(bool for_communicate, size_t pipe_cap) {
       add_out(1, pick({1, 100, 70000, 200 * 1024}, "wp.o2"));
       if (choose(2, "wp.err")) add_out(2, pick({1, 100}, "wp.e"));
       break;
+    case 10: { // chatty: a little output every few hundred milliseconds for many seconds - the parent's poll()
+               // never comes back empty-handed, so nothing that only happens "when poll timed out" ever happens
+      s.family = "chatty";
+      unsigned n = (unsigned)pick({12, 40, 100, 140}, "ch.n");
+      uint64_t gap = pick({200000, 100000, 400000, 700000}, "ch.gap");
+      uint64_t k = pick({10, 1, 100}, "ch.bytes");
+      bool on_err = !for_communicate && choose(4, "ch.err") == 3;
+      for (unsigned i = 0; i < n; i++) {
+        if (on_err && (i & 1)) add_out(2, k);
+        else add_out(1, k);
+        a.push_back("SLEEP:" + std::to_string(gap));
+        s.total_sleep += gap;
+      }
+      if (choose(2, "ch.drain")) {
+        a.push_back("RA");
+        s.reads_to_eof = true;
+      }
+      break;
+    }
     case 9: // closes stdout early, then consumes its input
       s.family = "closes_stdout_early";
       if (choose(2, "co.first")) add_out(1, pick({1, 100, 5000}, "co.o"));
